@@ -149,7 +149,9 @@ fn get_global_info(root: &Node<'_>) -> GlobalInfo {
         let mut used_names = HashSet::new();
         for (infoset, name) in given.iter() {
             seen.remove(infoset);
-            used_names.insert(name);
+            if !used_names.insert(name) {
+                panic!("two different infosets of one player had the same name : https://github.com/erikbrinkman/cfr#duplicate-infosets");
+            }
         }
 
         let mut number_names = Vec::new();
